@@ -203,6 +203,8 @@ def t_evalue(v):
     if k == "int":
         return [1, x]
     if k == "float":
+        if (x >> 52) & 0x7ff == 0x7ff and (x & ((1 << 52) - 1)):
+            x = 0x7ff8000000000000          # NaN sign and payload are the platform's, not modelled
         return [2, x]
     if k == "string":
         return [3] + t_text(x[0]) + [x[1]]
